@@ -497,4 +497,20 @@ def check(run, prog, tier):
             else:
                 ok, why = None, "`%s` (line %s): a cursor update this rule does not read" % (show(n)[:60], n.get("l"))
             run.ob("C19-f", "wrap:%s:%s:%d" % (f.name, strip(n["L"]).get("f"), j), ok, why, f.file, n.get("l"), f.name, what="%s advances a queue cursor without wrapping at the capacity" % f.name)
+    # the same written as an increment with a reset: `if (++q->tail == q->capacity) q->tail = 0;`
+    for f in sorted(qfuncs, key=lambda x: x.line):
+        for j, (b, i, n) in enumerate([x for x in f.nodes() if x[2].get("k") == "Un" and x[2].get("op") in ("++",) and strip(x[2]["e"]).get("k") == "Mem" and strip(x[2]["e"]).get("f") in ("head", "tail") and strip(x[2]["e"]).get("rec") in QREC]):
+            fld_ = strip(n["e"]).get("f")
+            nf_ += 1
+            run.saw(f)
+            reset = False
+            for b2, i2, n2 in f.nodes():
+                if n2.get("k") == "Asg" and n2.get("op") == "=" and strip(n2["L"]).get("k") == "Mem" and strip(n2["L"]).get("f") == fld_ and const_val(n2["R"]) == 0:
+                    for c, t, B in cfgq.guards(f, b2.id):
+                        op, l, r = atom_of(c, t)
+                        if r is not None and op in ("==", ">=") and any(y.get("k") == "Mem" and y.get("f") == fld_ for y in walk(l)) and any(y.get("k") == "Mem" and y.get("f") == "capacity" for y in walk(r)) \
+                                and (b2.id in cfgq.reach_set(f, [b.id]) or b2.id == b.id):
+                            reset = True
+            run.ob("C19-f", "wrap:%s:%s:inc%d" % (f.name, fld_, j), reset, "`%s` is followed by a reset to 0 when it reaches the capacity" % show(n)[:40] if reset else
+                   "`%s` (line %s) is not followed by a reset to 0 at the capacity: the cursor runs off the ring" % (show(n)[:40], n.get("l")), f.file, n.get("l"), f.name, what="%s advances a queue cursor without wrapping at the capacity" % f.name)
     run.need(nf_ >= 3, "cursor updates of the queue (found %d)" % nf_)
